@@ -1,8 +1,11 @@
 """Deterministic thread scheduler for C12 (harness-owned schedules).
 
-Worker threads execute *real* code.  ``sys.settrace`` line events of frames whose code object lives in one of the
-``traced_files`` are *yield points*.  At every moment exactly one worker holds the token and runs; all others are
-parked on their private gate.  The schedule decides where the token moves:
+Worker threads execute *real* code.  Line events of frames whose code object lives in one of the ``traced_files``
+are *yield points* (engine ``"settrace"``: ``sys.settrace`` per worker thread; engine ``"monitoring"``:
+``sys.monitoring`` LINE events enabled locally on exactly those code objects, CPython >= 3.12, about twice as fast;
+the two differ only inside generator expressions, where settrace reports one line event per resumption).
+At every moment exactly one worker holds the token and runs; all others are parked on their private gate.
+The schedule decides where the token moves:
 
     schedule = {"prio": [thread indices, highest priority first], "cp": [global yield indices]}
 
